@@ -150,7 +150,10 @@ def gen_model(rng, cplx, allow_nan=True, allow_mask=True, allow_log=True, nkeys=
                 if rng.integers(0, 4) == 0:
                     m = rng.uniform(size=shp) < 0.3
                     d = d.copy()
-                    d[m] = np.nan
+                    if cplx and rng.integers(0, 2):
+                        d[m] = d[m].real + 1j * np.nan        # NaN in the imaginary part only
+                    else:
+                        d[m] = np.nan
                     nd_nan = int(m.sum())
                 if rng.integers(0, 4) == 0:
                     m = rng.uniform(size=shp) < 0.3
@@ -282,7 +285,7 @@ def gen_samples(rng, lat, cplx, ns, zeros=False):
     return out, zpos
 
 
-def chk(ck, bad, what, obs, exp, hit, rtol=RTOL, **w):
+def chk(ck, bad, what, obs, exp, hit, rtol=RTOL, atol=0.0, **w):
     ck.hit(hit)
     if exp is None or obs is None:
         if not (exp is None and obs is None):
@@ -298,7 +301,7 @@ def chk(ck, bad, what, obs, exp, hit, rtol=RTOL, **w):
     if not np.all(np.isfinite(e)) or not np.all(np.isfinite(o)):
         same = np.array_equal(np.isnan(o), np.isnan(e)) and ndev(o, e) <= rtol
     else:
-        same = bool(np.max(np.abs(o - e)) <= rtol * sc + 1e-13 * min(1.0, sc) * 0)
+        same = bool(np.max(np.abs(o - e)) <= rtol * sc + atol)
     if not same:
         bad(what, observed=repr(obs), expected=repr(exp), **w)
     return same
@@ -313,7 +316,7 @@ def case_cl(ck, rng):
     lh, latdom = build_cl(ift, lat, parts, cplx, single_latent)
     ns = int(pick(rng, [1, 2, 3, 3, 4, 5]))
     use_res = rng.integers(0, 3) == 0
-    zeros = rng.integers(0, 6) == 0
+    zeros = rng.integers(0, 6) == 0 and not any(sp["f"] == "log" for p in parts for sp in p["subs"])
     dt = np.complex128 if cplx else np.float64
 
     def mk(x):
@@ -384,12 +387,14 @@ def case_cl(ck, rng):
                 chk(ck, bad, f"redchisq mean of {grp}[{k}] differs", o["mean"], st["red"][0],
                     "cl_numbers_checked", key=f"cl:redchisq-mean:{tag}")
                 chk(ck, bad, f"redchisq std of {grp}[{k}] differs", o["std"], st["red"][1],
-                    "cl_numbers_checked", key=f"cl:redchisq-std:{tag}", rtol=1e-7)
+                    "cl_numbers_checked", key=f"cl:redchisq-std:{tag}", rtol=1e-7,
+                    atol=1e-9 * abs(st["red"][0]))
                 o = vals["scmean"][grp][k]
                 chk(ck, bad, f"scmean mean of {grp}[{k}] differs", o["mean"], st["sc"][0],
                     "cl_numbers_checked", key=f"cl:scmean-mean:{tag}")
                 chk(ck, bad, f"scmean std of {grp}[{k}] differs", o["std"], st["sc"][1],
-                    "cl_numbers_checked", key=f"cl:scmean-std:{tag}", rtol=1e-7)
+                    "cl_numbers_checked", key=f"cl:scmean-std:{tag}", rtol=1e-7,
+                    atol=1e-9 * abs(st["sc"][0]))
                 ond, oni = int(vals["ndof"][grp][k]), int(vals["nigndof"][grp][k])
                 ck.hit("cl_numbers_checked", 2)
                 if (ond, oni) not in set(zip(st["ndof"], st["nign"])):
@@ -527,9 +532,11 @@ def case_re(ck, rng):
                 bad("leaf is not a ChiSqStats", key="re:leaf-type", leaf=k)
                 continue
             chk(ck, bad, f"mean [avg, std] of leaf {k} differs", np.asarray(o.mean),
-                np.array(st["mean"]), "re_numbers_checked", key="re:mean", rtol=1e-9)
+                np.array(st["mean"]), "re_numbers_checked", key="re:mean", rtol=1e-9,
+                atol=1e-9 * abs(st["mean"][0]))
             chk(ck, bad, f"reduced_chisq [avg, std] of leaf {k} differs", np.asarray(o.reduced_chisq),
-                np.array(st["rx"]), "re_numbers_checked", key="re:reduced_chisq", rtol=1e-9)
+                np.array(st["rx"]), "re_numbers_checked", key="re:reduced_chisq", rtol=1e-9,
+                atol=1e-9 * abs(st["rx"][0]))
             ck.hit("re_numbers_checked")
             if int(o.ndof) != st["ndof"]:
                 bad(f"ndof of leaf {k} differs", key="re:ndof", observed=int(o.ndof),
